@@ -23,7 +23,7 @@ func init() {
 	run.Register(&run.Check{
 		ID:    "C19",
 		Level: "fault_enumeration",
-		Rule: "fault enumeration: conflict kind (7: equal ANP priorities, ANP priority outside 0..1000, duplicate ANP name, duplicate NetworkPolicy name in one namespace, two BANPs, BANP not named default, pods of one owner with different labels) x number of other admin policies {0,1,2,3,5,8,11,12,13,20,31,64,200} x position of the conflicting documents {first,last,adjacent,far apart,median} x route {list, diff with the conflict in dir1, in dir2}, file placement random; the conflicting admin policy has rules in one direction, in both, or no rule at all; fillers include rule-less policies and the legal boundary priorities 0 and 1000; in 30% of the cells a stray non-manifest / malformed file (a severe, recoverable error) is read before or after the conflict, in the twin too; " +
+		Rule: "fault enumeration: conflict kind (7: equal ANP priorities, ANP priority outside 0..1000, duplicate ANP name, duplicate NetworkPolicy name in one namespace, two BANPs, BANP not named default, pods of one owner with different labels) x number of other admin policies {0,1,2,3,5,8,11,12,13,20,31,64,200} x position of the conflicting documents {first,last,adjacent,far apart,median} x route {list, diff with the conflict in dir1, in dir2}, file placement random; the conflicting admin policy has rules in one direction, in both, or no rule at all; a third of the duplicate-name / two-BANP conflicts are the very same document twice; fillers include rule-less policies and the legal boundary priorities 0 and 1000; in 30% of the cells a stray non-manifest / malformed file (a severe, recoverable error) is read before or after the conflict, in the twin too; " +
 			"each cell is run with the conflict (expected: error returned, no connections, a fatal entry in Errors(), message naming the conflict) and as a conflict-free twin (expected: clean analysis), so an oracle that fires on everything is caught; " +
 			"non-trivial = the conflict-free twin analysed cleanly with a non-empty report; distinct = cell + filler hash",
 		Assumptions:       []string{"'naming the conflict' = the message contains one of the conflicting resource names, the offending priority value, or the words baseline/default for the BANP kinds", "exposure mode is out of scope (it rejects every ANP)"},
@@ -31,7 +31,7 @@ func init() {
 		Run:               runC19,
 		MinNonTrivial:     500,
 		MinEffectiveShare: 0.8,
-		RequiredEvents:    map[string]int64{"conflict_runs": 1000, "twin_runs_clean": 1000, "rejected_with_identifying_message": 1000, "cells_n_ge_12": 300, "conflicting_anp_without_rules": 50, "cells_with_a_severe_error_next_to_the_conflict": 100},
+		RequiredEvents:    map[string]int64{"conflict_runs": 1000, "twin_runs_clean": 1000, "rejected_with_identifying_message": 1000, "cells_n_ge_12": 300, "conflicting_anp_without_rules": 50, "cells_with_a_severe_error_next_to_the_conflict": 100, "conflict_is_an_identical_copy": 50},
 	})
 }
 
@@ -180,6 +180,11 @@ func runC19(c *run.Ctx) {
 	case "anp-same-name":
 		a, b := fillerANP(g, w, 9000, pris[n]), fillerANP(g, w, 9001, pris[n+1])
 		a.Name, b.Name = "conflict-a", "conflict-a"
+		if g.P(0.3) { // identical copies (same priority too): the name conflict is reported whichever check fires first
+			b = a
+			r.Ev("conflict_is_an_identical_copy", 1)
+			tokens = append(tokens, "conflict-a")
+		}
 		if n > 0 && g.P(0.5) {
 			a.Name = w.ANPs[g.Intn(n)].Name
 			conflict = []world.Doc{anpDoc(a)}
@@ -191,13 +196,18 @@ func runC19(c *run.Ctx) {
 	case "np-same-name":
 		ns := w.Workloads[0].Ns
 		a, b := world.GenNetPol(g, w, cfg, ns, "conflict-np"), world.GenNetPol(g, w, cfg, ns, "conflict-np")
+		if g.P(0.35) {
+			b = a
+			r.Ev("conflict_is_an_identical_copy", 1)
+		}
 		conflict = []world.Doc{{Kind: "NetworkPolicy", YAML: world.NetPolYAML(&a)}, {Kind: "NetworkPolicy", YAML: world.NetPolYAML(&b)}}
 		tokens = []string{"conflict-np"}
 	case "two-banp":
 		a := world.BANP{Name: "default", Subject: world.GenSubject(g, w)}
 		b := world.BANP{Name: "default", Subject: world.GenSubject(g, w)}
-		if g.P(0.5) {
-			b.Name = "default" // both legal names; uniqueness is what is violated
+		if g.P(0.35) { // the very same document twice is still two baseline policies
+			b = a
+			r.Ev("conflict_is_an_identical_copy", 1)
 		}
 		conflict = []world.Doc{{Kind: "BANP", YAML: world.BANPYAML(&a)}, {Kind: "BANP", YAML: world.BANPYAML(&b)}}
 		tokens = []string{"baseline", "default"}
